@@ -26,7 +26,14 @@ var (
 	AddrEmptyAcct  = common.HexToAddress("0x000000000000000000000000000000000000100e") // exists in genesis with nonce 1 only
 	AddrCallFail   = common.HexToAddress("0x000000000000000000000000000000000000100f") // CALL(w0, value w1, data rest), SSTORE, then INVALID
 	AddrBlockhash  = common.HexToAddress("0x0000000000000000000000000000000000001010") // SSTORE(w0, BLOCKHASH(NUMBER - w0)); LOG1(topic = that hash)
+	AddrLooper     = common.HexToAddress("0x0000000000000000000000000000000000001011") // w3 times: CALL (w0=0) or CALLCODE (w0!=0) to w1 with value w2 and gas w4; then stack churn and SSTORE(4,1)
 )
+
+// FreshMiners are coinbase addresses that hold nothing at genesis.
+var FreshMiners = []common.Address{
+	common.HexToAddress("0x00000000000000000000000000000000c01b0001"),
+	common.HexToAddress("0x00000000000000000000000000000000c01b0002"),
+}
 
 const (
 	KindCall         = 0
@@ -141,13 +148,53 @@ func codeBlockhash() []byte {
 	return a.Bytes()
 }
 
+// codeLooper repeats a value-bearing CALL or CALLCODE and keeps computing afterwards.
+func codeLooper() []byte {
+	a := NewAsm()
+	a.Push(96).Op(CALLDATALOAD) // [i]
+	a.Label("loop")
+	a.Op(DUP1, ISZERO).JumpI("end")
+	a.Push(0).Push(0).Push(0).Push(0)
+	a.Push(64).Op(CALLDATALOAD)  // value
+	a.Push(32).Op(CALLDATALOAD)  // to
+	a.Push(128).Op(CALLDATALOAD) // gas
+	a.Push(0).Op(CALLDATALOAD).JumpI("cc")
+	a.Op(CALL).Jump("after")
+	a.Label("cc").Op(CALLCODE)
+	a.Label("after") // [i, success]
+	a.Op(POP).Push(1).Op(SWAP1, SUB).Jump("loop")
+	a.Label("end")
+	for k := 0; k < 10; k++ { // work that recycles the interpreter's integer pool after the calls
+		a.PushBytes(bytes32(byte(0x11 * (k%7 + 1)))).Op(POP)
+	}
+	a.Push(1).Push(4).Op(SSTORE, STOP)
+	return a.Bytes()
+}
+
+func bytes32(b byte) []byte {
+	out := make([]byte, 32)
+	for i := range out {
+		out[i] = b
+	}
+	return out
+}
+
+// LoopData is the call data for AddrLooper.
+func LoopData(callcode bool, to common.Address, value *big.Int, count, gas uint64) []byte {
+	k := uint64(0)
+	if callcode {
+		k = 1
+	}
+	return Cat(Word(k), WordAddr(to), WordBig(value), Word(count), Word(gas))
+}
+
 // ZooCode maps each zoo address to its runtime code.
 func ZooCode() map[common.Address][]byte {
 	return map[common.Address][]byte{
 		AddrStore: codeStore(), AddrMultiStore: codeMultiStore(), AddrEmit: codeEmit(), AddrReverter: codeReverter(),
 		AddrOOG: codeOOG(), AddrInvalid: codeInvalid(), AddrForwarder: codeForwarder(), AddrCreator: codeCreator(),
 		AddrSuicide: codeSuicide(), AddrRecursor: codeRecursor(), AddrBouncer: codeBouncer(),
-		AddrForwarder2: codeForwarder(), AddrSuicide2: codeSuicide(), AddrCallFail: codeCallFail(), AddrBlockhash: codeBlockhash(),
+		AddrForwarder2: codeForwarder(), AddrSuicide2: codeSuicide(), AddrCallFail: codeCallFail(), AddrBlockhash: codeBlockhash(), AddrLooper: codeLooper(),
 	}
 }
 
